@@ -42,6 +42,9 @@ func (self ValueString) Fields() (map[string]*Value, *Interrupt) {
 		}),
 		"repeat": NewValueBuiltinFunction(func(executor Executor, cancelCtx *context.Context, span errors.Span, args ...Value) (*Value, *Interrupt) {
 			count := int(args[0].(ValueInt).Inner)
+			if count < 0 {
+				return nil, NewRuntimeErr(fmt.Sprintf("Cannot repeat a string %d times", count), ValueErrorKind, span)
+			}
 			return NewValueString(strings.Repeat(self.Inner, count)), nil
 		}),
 		"split": NewValueBuiltinFunction(func(executor Executor, cancelCtx *context.Context, span errors.Span, args ...Value) (*Value, *Interrupt) {
